@@ -244,6 +244,14 @@ func (fr *frame) contractCall(v ssa.Value, sp *FuncSpec, f *ssa.Function, sig *t
 	if len(sp.Marks) > 0 {
 		e.usedMarks[shortFunc(name)] = len(sp.Marks)
 	}
+	if name == "math.Floor" || name == "math.Round" || name == "math.Ceil" || name == "math.Trunc" {
+		for _, r := range rs {
+			e.intValued[r] = true
+			k := e.fresh("ishadow", "Int")
+			e.assume(implies(bc, eq(r, app("to_real", k))))
+			e.shadow[r] = [2]string{k, bc}
+		}
+	}
 	fr.setResults(v, sig, rs)
 }
 
